@@ -8,7 +8,13 @@ var VerifModes = map[string]string{}
 // VerifLoadResult is what verifRepl_LoadPackage returns (built by the harness).
 var VerifLoadResult *PackageInfo
 
+// VerifLoadHook, when set by a harness (C20), supplies the result of the LoadPackage seam.
+var VerifLoadHook func(dir string) (*PackageInfo, error)
+
 func verifRepl_LoadPackage(dir string) (*PackageInfo, error) {
+	if VerifLoadHook != nil {
+		return VerifLoadHook(dir)
+	}
 	verifEvent("load", dir)
 	return VerifLoadResult, nil
 }
